@@ -113,7 +113,7 @@ func scanReadOnly(c *core.Ctx) []ob {
 		nMeth++
 		aliases := localAliasesMode(info, fd, true)
 		for _, w := range collectWrites(info, fd.Body) {
-			for _, r := range rootsOf(info, w.target, aliases, 0) {
+			for _, r := range rootsOfWrite(info, w, aliases) {
 				if r.obj != recv || r.field == "" {
 					continue
 				}
